@@ -147,7 +147,7 @@ def run_tlc(module, cfg_text, env=None, workers=None, simulate=None, depth=None,
 
 
 def tail(text, n):
-    return '\n'.join(text.splitlines()[-n:])
+    return '\n'.join([l[:300] for l in text.splitlines() if not l.startswith('<<"PROGRAM"')][-n:])
 
 
 def tla_value(v):
